@@ -12,8 +12,10 @@ import time
 import traceback
 
 VERIF = os.path.dirname(os.path.dirname(os.path.abspath(__file__)))
-EVIDENCE_DIR = os.path.join(VERIF, "evidence")
-REPLAY_DIR = os.path.join(VERIF, "replays")
+# (the two overrides exist so that seeded-defect trials against a scratch worktree
+#  do not clobber the committed evidence; registered commands never set them)
+EVIDENCE_DIR = os.environ.get("PGMC_EVIDENCE_DIR") or os.path.join(VERIF, "evidence")
+REPLAY_DIR = os.environ.get("PGMC_REPLAY_DIR") or os.path.join(VERIF, "replays")
 KNOWN = os.path.join(VERIF, "known_findings.json")
 NPROC = int(os.environ.get("PGMC_NPROC", str(min(16, os.cpu_count() or 1))))
 
